@@ -77,6 +77,12 @@ func (s *storage) delete(br blob.Ref) error {
 		return err
 	}
 
+	if meta.size == 0 {
+		// Empty blob: no data to punch out or zero. (Punching a zero-length
+		// hole fails with EINVAL on Linux.)
+		return nil
+	}
+
 	// punch hole, if possible
 	if punchHole != nil {
 		err = punchHole(f, meta.offset, int64(meta.size))
